@@ -13,6 +13,7 @@ RULE = (
     'in-support points and at points with a non-finite score (non-positive error scale, negative population scale, '
     'prior-rejected value). Oracle: complex-step derivative of the independent reference score. Non-trivial: '
     '(>=2 outputs or hierarchical with a special dimension) at a finite point. Distinct = structural projection.')
+RULE += (' ' + 'Added classes: unmeasured outputs in front of measured ones, negative model outputs, every mechanistic parameter of an SBML-backed likelihood fixed (only noise parameters free), far-tail truncated Gaussian parts in hierarchical specs.')
 ASSUMPTIONS = [
     'analytic mechanistic model is harness code and returns exact output sensitivities',
     'reference score = vf/ref.py + vf/llbuild.py + vf/hbuild.py; derivative by complex step (exact to rounding)',
